@@ -31,7 +31,7 @@ def cases(tier, seed):
     rng = rng_for(seed, "c12")
     n = 160 if tier == "quick" else 4000
     vkinds = ["inside", "inside", "bound_lo", "bound_hi", "outside", "neg_radius", "constraint", "inside"]
-    noise = ["model", "model_prior", "data", "none_uniform", "none_gaussian", "channel_data", "model_array"]
+    noise = ["model", "model_prior", "data", "none_uniform", "none_gaussian", "channel_data", "both", "both_prior"]
     for i in range(n):
         c = {"id": "post-%d" % i, "kind": "post", "model": ["alpha", "exact", "alpha_fixed"][i % 3], "optics_src": ["model", "data", "mixed"][(i // 3) % 3],
              "noise_src": noise[(i // 2) % len(noise)], "vkind": vkinds[(i // 5) % len(vkinds)], "data_form": ["image", "subset", "pixels"][(i // 7) % 3],
@@ -105,8 +105,10 @@ def run_case(case):
         sig_model = float(rng.uniform(0.02, 0.3)); kw["noise_sd"] = sig_model
     elif case["noise_src"] == "model_prior":
         pri["sigma"] = Uniform(0.01 + j(), 0.5 + j()); kw["noise_sd"] = pri["sigma"]
-    elif case["noise_src"] == "model_array":
-        pass
+    elif case["noise_src"] == "both":          # the model's noise level takes precedence over the data's
+        sig_model = float(rng.uniform(0.02, 0.3)); kw["noise_sd"] = sig_model
+    elif case["noise_src"] == "both_prior":
+        pri["sigma"] = Uniform(0.01 + j(), 0.5 + j()); kw["noise_sd"] = pri["sigma"]
     constraints = [LimitOverlaps(0.1)] if case["two"] else []
     counter = _Counter()
     if case["model"] == "alpha":
@@ -183,8 +185,8 @@ def run_case(case):
         attrs.update(medium_index=nmed, illum_wavelen=wl, illum_polarization=pol)
     if case["optics_src"] == "mixed":
         attrs.update(illum_wavelen=wl)
-    if case["noise_src"] == "data":
-        sig_data = float(rng.uniform(0.02, 0.3)); attrs["noise_sd"] = sig_data
+    if case["noise_src"] in ("data", "both", "both_prior"):
+        sig_data = float(rng.uniform(0.02, 0.3)) * (3.0 if case["noise_src"] != "data" else 1.0); attrs["noise_sd"] = sig_data
     if not chan:
         data = update_metadata(data.copy(), **attrs) if attrs else data
         if case["optics_src"] == "model" or True:
@@ -216,15 +218,15 @@ def run_case(case):
         resid["lnprior"] = fnum(abs(lp - lp_exp) / max(1.0, abs(lp_exp)))
     # sigma that applies
     expect_missing = False
-    if case["noise_src"] == "model":
+    if case["noise_src"] in ("model", "both"):
         sig = sig_model
-    elif case["noise_src"] == "model_prior":
+    elif case["noise_src"] in ("model_prior", "both_prior"):
         sig = val_of("sigma")
     elif case["noise_src"] == "data":
         sig = sig_data
     elif case["noise_src"] == "channel_data":
         sig = None
-    elif case["noise_src"] in ("none_uniform", "model_array"):
+    elif case["noise_src"] in ("none_uniform",):
         sig = 1.0 if all(isinstance(p, Uniform) for p in plist) else None
         expect_missing = sig is None
     else:
